@@ -40,9 +40,18 @@ type Config struct {
 	SolverLog       string
 }
 
+// repoRoot is /repo; VERIF_REPO redirects development-time experiments
+// (seeded changes in a scratch worktree) without touching /repo.
+func repoRoot() string {
+	if d := os.Getenv("VERIF_REPO"); d != "" {
+		return d
+	}
+	return "/repo"
+}
+
 func DefaultConfig() Config {
 	return Config{
-		RepoDir: "/repo", HarnessDir: filepath.Join(verifRoot(), "harness"), Workers: 16,
+		RepoDir: repoRoot(), HarnessDir: filepath.Join(verifRoot(), "harness"), Workers: 16,
 		FeasTimeoutMs: 2000, AssertTimeoutMs: 60000, Unwind: 64, InstrBudget: 30000000,
 		MaxPaths: 200000, MaxAlloc: 1 << 18, MaxSymIndex: 256, MapOrderFork: true,
 		Solver: "z3-new", MaxViolations: 1, TimeBudget: 10 * time.Minute,
